@@ -53,7 +53,8 @@ struct State {
     uint64_t insns = 0;
     uint64_t timeCtr = 0;
     bool assertedSomething = false;
-    std::vector<std::pair<std::string, z3::expr>> known;   // known-finding predicates declared by the harness on this path
+    std::vector<std::pair<std::string, z3::expr>> known;
+    std::unordered_map<unsigned, bool> fact;   // conditions already decided on this path (expr id -> value); monotone because the PC only grows   // known-finding predicates declared by the harness on this path
 };
 typedef std::unique_ptr<State> StateP;
 
@@ -103,6 +104,7 @@ public:
     std::map<std::string, uint64_t> nativeUse;
     std::map<std::string, Failure> knownHits;
     uint64_t pathsDone = 0, pathsKilledAssume = 0, pathsError = 0, pathsBudget = 0, forks = 0, totalInsns = 0;
+    uint64_t qCached = 0;
     uint64_t qHeavy = 0; double slowestQ = 0;
     uint64_t qTotal = 0, qSat = 0, qUnsat = 0, qUnknown = 0; double solverS = 0;
     uint64_t assertsChecked = 0, assertsSymbolic = 0, pathsWithSymAssert = 0;
